@@ -16,6 +16,9 @@ CLAIMED = {
  "C04": dict(tech=TECH + "authentication-before-IP-service monitor over the session table and emitted frames; foreign-MAC frames must be no-ops",
    text="Seeded exploration of out-of-protocol-order PPPoE discovery/session frame histories from owner and foreign MACs against the real pppoe.Server handlers over an in-memory raw socket, with the real radius.Client authenticating against a simulated RADIUS server (accept/reject/timeout) and the server's own goroutines and cleanup ticker as scheduler tasks. Sampling, not proof.",
    note="Frames are handed to the handlers one at a time as the single receive loop does; activity counters are not part of 'changing' a session; only PAP is reachable through the server's dispatch (CHAP frames are not dispatched by it).", ref="§5 C04"),
+ "C16": dict(tech=TECH + "resource ledger audited after quiescence (pool drain probe, NAT/QoS managers, kernel-map lookups, RADIUS record stream), idempotence under repeated and concurrent termination",
+   text="Seeded exploration of session establishment prefixes x termination paths x second (sequential or concurrent) terminations against composites of the real components (DHCPv4 server + pool + NAT + QoS + loader over real kernel maps + RADIUS client; further session types as variants), followed by an audit of every resource the session held. Sampling, not proof.",
+   note="Kernel maps are created by the harness with the value sizes the Go control plane marshals; XDP/TC programs are not loaded; the simulated RADIUS server answers every accounting request. Variants present in this build are listed in the evidence file.", ref="§5 C16"),
 }
 NA = {
  "C06": "static relation between Go and C declarations (sizes, offsets, byte order, key derivation for all inputs): no schedule, clock, fault or history can change it, so it is not a simulation target",
